@@ -11,6 +11,7 @@ type C17Case struct {
 	TempDir     bool     `json:"tempDir"` // configure UnixSocketConfig.TempDir
 	Launch      string   `json:"launch"`  // cmd | runner
 	UserEnv     []string `json:"userEnv"` // entries the user put into Cmd.Env
+	UserEnvName string   `json:"userEnvName,omitempty"`
 	Ambient     []string `json:"ambient"` // variables present in the host's own environment
 	AmbientName string   `json:"ambientName"`
 	E2E         bool     `json:"e2e"` // launch a real serving plugin and use it
